@@ -33,12 +33,14 @@ KINDS = [("vi", "span"), ("vi", "max_diff"), ("rvi", "span"), ("per", "span"), (
 def gen_cases(seed, tier):
     rng = np.random.default_rng([seed, 8])
     n = 260 if tier == "quick" else 2600
-    devs = [1] if tier == "quick" else [1, 1, 1, 2, 4]
+    devs = [1, 1, 1, 2, 3] if tier == "quick" else [1, 1, 1, 2, 4]
     cases = []
     for i in range(n):
         kind, test = KINDS[int(rng.integers(0, len(KINDS)))]
         avg = "unichain" if (kind == "rvi" or rng.random() < 0.25) else None
         spec = gen.random_spec(rng, smin=2, smax=30, avg=avg)
+        if rng.random() < 0.15:
+            spec["S"] = int(rng.choice([65, 70, 97, 129]))
         if spec["init"] == "far":
             spec["init"] = "random"
         if kind == "rvi":
